@@ -195,8 +195,8 @@ def number(n, d, power=False):
         import numpy as np
         if f.denominator == 1:
             return [np.int64, np.int32, np.float64, np.int16][i % 4](int(f))
-        # a power is printed through Fraction(power): only float64 is a Python float (see the note on float32 powers)
-        return np.float64(float(f)) if power else [np.float64, np.float32][i % 2](float(f))
+        # every numpy float width, also as a constant power (x ** np.float32(0.5) used to fail when printed; /repo b92b85e)
+        return [np.float64, np.float32, np.float16][i % 3](float(f))
     return int(f) if f.denominator == 1 else float(f)
 
 
